@@ -1149,11 +1149,53 @@ func init() {
 		if x.t == nil || y.t == nil {
 			return x.t == nil && y.t == nil
 		}
-		if types.Comparable(x.t) && fr.m.equalsV(x.t, x, y) == true {
+		return fr.m.errorsIs(fr, x, y, 0)
+	})
+}
+
+// errorsIs follows errors.Is: equality, an Is(error) bool method, then the
+// Unwrap() error / Unwrap() []error chain (the methods are interpreted).
+func (m *Machine) errorsIs(fr *frame, x, y iface, depth int) bool {
+	for ; depth < 64; depth++ {
+		if x.t == nil {
+			return false
+		}
+		if types.Comparable(x.t) && types.Identical(x.t, y.t) && m.equalsV(x.t, x, y) == true {
 			return true
 		}
-		return false
-	})
+		ms := m.P.Prog.MethodSets.MethodSet(x.t)
+		if sel := ms.Lookup(nil, "Is"); sel != nil {
+			sig := sel.Type().(*types.Signature)
+			if sig.Params().Len() == 1 && sig.Results().Len() == 1 && types.Identical(sig.Params().At(0).Type(), types.Universe.Lookup("error").Type()) {
+				if r, ok := m.call(fr, token.NoPos, m.P.Prog.MethodValue(sel), []value{x.v, y}).(bool); ok && r {
+					return true
+				}
+			}
+		}
+		sel := ms.Lookup(nil, "Unwrap")
+		if sel == nil {
+			return false
+		}
+		sig := sel.Type().(*types.Signature)
+		if sig.Params().Len() != 0 || sig.Results().Len() != 1 {
+			return false
+		}
+		r := m.call(fr, token.NoPos, m.P.Prog.MethodValue(sel), []value{x.v})
+		switch rv := r.(type) {
+		case iface:
+			x = rv
+		case []value:
+			for _, e := range rv {
+				if ei, ok := e.(iface); ok && m.errorsIs(fr, ei, y, depth+1) {
+					return true
+				}
+			}
+			return false
+		default:
+			return false
+		}
+	}
+	return false
 }
 
 func regexpOf(v value) *regexp.Regexp {
